@@ -29,12 +29,13 @@ class FunctionReport:
 
 
 class Engine:
-    def __init__(self, reg, repo=None, timeout_ms=10000, feas_timeout_ms=2000, max_paths=4000):
+    def __init__(self, reg, repo=None, timeout_ms=10000, feas_timeout_ms=500, max_paths=4000):
         self.reg = reg
         self.repo = repo or Repo()
         self.timeout_ms = timeout_ms
         self.feas_timeout_ms = feas_timeout_ms
         self.max_paths = max_paths
+        self.feas_rlimit = 3000000
         self._ufs = {}
         self._expr_cache = {}
         self.assumptions = []
@@ -398,14 +399,22 @@ class Engine:
     # -- discharging ----------------------------------------------------------------------------------
     def discharge(self, ob, use_cvc5=True):
         t0 = time.time()
+        budget = 4.0 * self.timeout_ms / 1000.0          # total wall-clock budget for one obligation (all back ends together)
+
+        def spent():
+            return time.time() - t0 > budget
         s = z3.Solver()
         seqish = any(k in str(ob.goal) for k in ("Concat", "seq.", "rest(", "Length"))
-        s.set("timeout", min(self.timeout_ms, 3000) if seqish else self.timeout_ms)
+        s.set("timeout", min(self.timeout_ms, 3000) if (seqish or ob.kind == "canary") else self.timeout_ms)
         for a in ob.pc:
             s.add(a)
         s.add(z3.Not(ob.goal))
         r = s.check()
         ob.backend = "z3"
+        if ob.kind == "canary" and r == z3.unknown:
+            ob.verdict = "unknown"           # a canary only has to be satisfiable somewhere; no portfolio for it
+            ob.time = time.time() - t0
+            return ob.verdict
         if r == z3.unsat:
             ob.verdict = "unsat"
         elif r == z3.sat:
@@ -422,6 +431,8 @@ class Engine:
             texts = None
             for label, drop in (("-nth", ("seq.nth", "nth_i", "nth_u")), ("-zeros", ("zeros(",)), ("-nth-zeros", ("seq.nth", "nth_i", "nth_u", "zeros(")),
                                 ("-nth-zeros-kind", ("seq.nth", "nth_i", "nth_u", "zeros(", "fs_kind"))):
+                if spent():
+                    break
                 if texts is None:
                     texts = [str(a) for a in ob.pc]
                 sub = [a for a, t in zip(ob.pc, texts) if not any(d in t for d in drop)]
@@ -442,7 +453,28 @@ class Engine:
                             break
                     if ob.verdict == "unsat":
                         break
-            if ob.verdict == "unknown" and seqish:
+            if ob.verdict == "unknown":
+                # cone-of-influence subsets: assertions reachable from the goal's symbols in k rounds, ignoring symbols that
+                # occur almost everywhere (they connect everything with everything)
+                for sub, label in self.coi_subsets(ob):
+                    if spent():
+                        break
+                    s2 = z3.Solver()
+                    s2.set("timeout", max(2000, self.timeout_ms // 3))
+                    for a in sub:
+                        s2.add(a)
+                    s2.add(z3.Not(ob.goal))
+                    if s2.check() == z3.unsat:
+                        ob.verdict, ob.backend = "unsat", "z3" + label
+                        break
+                    if use_cvc5:
+                        for name, fn in (("z3-4.8.12", run_z3_old), ("cvc5", run_cvc5)):
+                            if fn(s2, max(2000, self.timeout_ms // 3)) == "unsat":
+                                ob.verdict, ob.backend = "unsat", name + label
+                                break
+                        if ob.verdict == "unsat":
+                            break
+            if ob.verdict == "unknown" and seqish and not spent():
                 s.set("timeout", self.timeout_ms)
                 r2 = s.check()
                 if r2 == z3.unsat:
@@ -453,7 +485,7 @@ class Engine:
                         ob.model = s.model()
                     except z3.Z3Exception:
                         ob.model = None
-            if use_cvc5 and ob.verdict == "unknown":
+            if use_cvc5 and ob.verdict == "unknown" and not spent():
                 # other back ends on the same SMT-LIB text: the Debian z3 4.8.12 and cvc5 decide many sequence
                 # obligations on which z3 5.1 gives up (and vice versa)
                 for name, fn in (("z3-4.8.12", run_z3_old), ("cvc5", run_cvc5)):
@@ -463,6 +495,53 @@ class Engine:
                         break
         ob.time = time.time() - t0
         return ob.verdict
+
+
+def _symbols(e, acc, seen):
+    if e.get_id() in seen:
+        return
+    seen.add(e.get_id())
+    if z3.is_app(e):
+        d = e.decl()
+        if d.kind() == z3.Z3_OP_UNINTERPRETED:
+            acc.add(d.name())
+        for c in e.children():
+            _symbols(c, acc, seen)
+
+
+def _coi_subsets(ob):
+    syms = []
+    for a in ob.pc:
+        acc = set()
+        _symbols(a, acc, set())
+        syms.append(acc)
+    goal = set()
+    _symbols(ob.goal, goal, set())
+    n = len(ob.pc)
+    freq = {}
+    for acc in syms:
+        for x in acc:
+            freq[x] = freq.get(x, 0) + 1
+    out = []
+    for cutoff in (0.34, 0.6):
+        common = {x for x, c in freq.items() if c > max(4, cutoff * n)} - goal
+        work = set(goal)
+        chosen = set()
+        for rounds in (1, 2, 3):
+            changed = True
+            added = set()
+            for i, acc in enumerate(syms):
+                if i not in chosen and (acc - common) & work:
+                    chosen.add(i)
+                    added |= acc - common
+            work |= added
+            sub = [ob.pc[i] for i in sorted(chosen)]
+            if 0 < len(sub) < n:
+                out.append((sub, f"-coi{rounds}@{cutoff}"))
+    return out
+
+
+Engine.coi_subsets = staticmethod(_coi_subsets)
 
 
 def run_z3_old(solver, timeout_ms):
